@@ -203,7 +203,7 @@ def _opt(code, value):
     return struct.pack("<HH", code, len(value)) + _pad4(value)
 
 
-def _ip_tcp(payload, rng, sport, dport, seq, flags=0x18, v6=False):
+def _ip_tcp(payload, rng, sport, dport, seq, flags=0x18, v6=False, addrs=None):
     tcp = struct.pack(">HHIIBBHHH", sport, dport, seq & 0xFFFFFFFF, 0, 5 << 4, flags, 65535, 0, 0)
     if v6:
         # the simulator reached over ::1
@@ -211,7 +211,7 @@ def _ip_tcp(payload, rng, sport, dport, seq, flags=0x18, v6=False):
         return struct.pack(">IHBB", 0x60000000, len(tcp) + len(payload), 6, 64) + lo + lo + tcp + payload
     total = 20 + len(tcp) + len(payload)
     ip = struct.pack(">BBHHHBBH4s4s", 0x45, 0, total, rng.randrange(65536), 0x4000, 64, 6, 0,
-                     bytes((127, 0, 0, 1)), bytes((127, 0, 0, 1)))
+                     *(addrs or (bytes((127, 0, 0, 1)), bytes((127, 0, 0, 1)))))
     return ip + tcp + payload
 
 
@@ -257,6 +257,16 @@ def write_pcapng(messages, rng, noise=True, ether=None, mixed=None, pad=0):
     clock_steps = noise and rng.random() < 0.25             # the capture clock is stepped back now and then
     v6 = noise and rng.random() < 0.15                      # localhost resolved to ::1 (Ethernet-framed packets only)
     n_pkt = 0
+    # addresses: loopback as a rule; any host pair otherwise - among them hosts whose first octets are what another layer
+    # would have at that offset of the frame (in a raw-IP frame the source address sits where an Ethernet frame has its type
+    # field: 8.0.x.x reads 0x0800, 134.221.x.x reads 0x86dd)
+    addrs = None
+    if noise and rng.random() < 0.4:
+        def host():
+            r_ = rng.random()
+            head = (8, 0) if r_ < 0.12 else (134, 221) if r_ < 0.2 else (8, 6) if r_ < 0.24 else (rng.choice((10, 172, 192, 100, 1, 223)), rng.randrange(256))
+            return bytes(head + (rng.randrange(256), rng.randrange(1, 255)))
+        addrs = (host(), host())
     # TCP retransmissions / frames recorded twice (bridges, `-i any`): the very same segment - addresses, ports, sequence
     # number, payload - appears again, at once or a few packets later.  The front-end is specified per packet.
     retransmit = noise and rng.random() < 0.15
@@ -267,10 +277,10 @@ def write_pcapng(messages, rng, noise=True, ether=None, mixed=None, pad=0):
         back = two_way and n_pkt % 2 == 1
         n_pkt += 1
         if back:
-            mk = lambda six, q=seq_back: _ip_tcp(payload, rng, 2321, 40000, q, 0x18 if psh else 0x10, v6=six)
+            mk = lambda six, q=seq_back: _ip_tcp(payload, rng, 2321, 40000, q, 0x18 if psh else 0x10, v6=six, addrs=addrs and addrs[::-1])
             seq_back += len(payload)
         else:
-            mk = lambda six, q=seq: _ip_tcp(payload, rng, 40000, 2321, q, 0x18 if psh else 0x10, v6=six)
+            mk = lambda six, q=seq: _ip_tcp(payload, rng, 40000, 2321, q, 0x18 if psh else 0x10, v6=six, addrs=addrs)
             seq += len(payload)
         pkt = None
         if clock_steps and rng.random() < 0.3:
